@@ -150,6 +150,7 @@ func (e *Engine) VerifyFunc(fn *ssa.Function, ct *FuncContract) (obls []*Obligat
 	// vacuity guard: the precondition (with type invariants) must be satisfiable
 	c.prove("vacuity", "preconditions are satisfiable (this query must be SAT)", True, False, nil)
 	c.obls[len(c.obls)-1].Kind = "vacuity"
+	c.localRaceSweep(fn)
 	entry := st.clone()
 	out, res := c.execFunction(fr, st)
 	if out.pc.S != "false" {
